@@ -28,6 +28,7 @@ type Checkpoint struct {
 	Phase    string                      `json:"phase"`
 	Round    int                         `json:"round"`
 	Up       []bool                      `json:"up"`
+	Epochs   []int                       `json:"epochs"`
 	State    map[int]map[string]KeyState `json:"state"`
 	Infected map[int][]string            `json:"infected,omitempty"`
 	// HistLen[k] = number of client ops on k issued so far
@@ -44,6 +45,9 @@ type ClusterTrace struct {
 	Inconclusive string        `json:"inconclusive,omitempty"`
 	// DownRounds[node] = rounds during which the node was stopped
 	DownRounds map[int][]int `json:"down_rounds,omitempty"`
+	// RestartBaseline[node] = engine state read right after the subscribers were attached
+	// to the restarted node (changes before that instant had no subscriber to notify).
+	RestartBaseline map[int]map[string]KeyState `json:"restart_baseline,omitempty"`
 }
 
 // FaultProfiles: named per-channel fault rates (percent per message).
@@ -114,6 +118,7 @@ func (t *ClusterTrace) TakeCheckpoint(ctx context.Context, phase string, round i
 	cp := &Checkpoint{Phase: phase, Round: round, HistLen: map[string]int{}, Infected: map[int][]string{}, Subs: map[*SubLog][]Notification{}}
 	for i, n := range c.Nodes {
 		cp.Up = append(cp.Up, n.Up)
+		cp.Epochs = append(cp.Epochs, n.Epoch)
 		if n.Up {
 			ops, err := c.Infected(ctx, i)
 			if err != nil {
@@ -177,7 +182,7 @@ func RunClusterCase(ctx context.Context, r *prng.R, spec ClusterSpec, check Chec
 	if err != nil {
 		return nil, err
 	}
-	t := &ClusterTrace{Spec: spec, Hist: History{}, Cluster: c, DownRounds: map[int][]int{}}
+	t := &ClusterTrace{Spec: spec, Hist: History{}, Cluster: c, DownRounds: map[int][]int{}, RestartBaseline: map[int]map[string]KeyState{}}
 	defer func() { _ = c.Close() }()
 	var keys []string
 	for _, k := range spec.Keys {
@@ -229,6 +234,9 @@ func RunClusterCase(ctx context.Context, r *prng.R, spec ClusterSpec, check Chec
 			}
 			c.Subscribe(down, "all", false, "restart")
 			c.Subscribe(down, "remote-only", true, "restart")
+			if st, err := c.State(ctx, keys); err == nil {
+				t.RestartBaseline[down] = st[down]
+			}
 			if !t.QuiesceAndCheck(ctx, "after-restart", round, keys, check) {
 				return t, nil
 			}
